@@ -6,6 +6,7 @@ import (
 	"fmt"
 	"log/slog"
 	"reflect"
+	"sync"
 )
 
 var (
@@ -100,7 +101,14 @@ func setPropsFromMap(cfg *Config, updates map[string]any) (stagedProps []stagedP
 	return setPropsFromMapRecursive(reflect.ValueOf(cfg), updates)
 }
 
+// Updates are applied one at a time: an update stages, commits, verifies and saves the whole
+// configuration (and may roll it back), none of which can be shared with another update.
+var updateMu sync.Mutex
+
 func UpdatePartialFromConfig(cfg *Config, updates map[string]any) (UpdateStatus, error) {
+	updateMu.Lock()
+	defer updateMu.Unlock()
+
 	slog.Info("Updating config with partial JSON", "updates", updates)
 
 	if updates == nil {
